@@ -259,7 +259,8 @@ MODULE_GLOBALS = {'math': SModule('math'), 'sle': SModule('sle'), 'tt': SModule(
 def check_obligation(ctx, ob):
     s = z3.Solver()
     s.set('timeout', Z3_TIMEOUT_MS)
-    for a in ctx.axioms:
+    from vt.e1 import calls as _calls
+    for a in list(ctx.axioms) + list(_calls.AXIOMS):
         s.add(a)
     for p in ob.pc:
         s.add(p)
